@@ -154,6 +154,9 @@ func TestCheck(t *testing.T) {
 	}
 
 	rep.Cases(n, func(idx int64, rng *mon.Rand) {
+		if idx%50 == 7 {
+			namedPointerCase(rep, rng.Sub("named-pointer"))
+		}
 		prof := newProfile(rng.Sub("profile"))
 		if stress {
 			// debugging aid: every case may combine all known-defect shapes with
